@@ -15,8 +15,20 @@ def worker(prog, key):
 
 
 def run(ck, pid, kind, floor_obl, floor_fn):
-    mods, info = frontend.load_modules()
+    prog, info, st = run_config(ck, pid, kind, floor_obl, floor_fn, "default")
+    if ck.tier == "thorough":
+        # the no-slack build compiles different clearing code (single terminator stores instead of memsets): same obligations, own keys
+        _, info2, st2 = run_config(ck, pid, kind, 0, 0, "noslack")
+        st["noslack"] = {k: st2[k] for k in ("total", "discharged", "outside_reach", "functions", "fully_discharged_functions")}
+        info = dict(info, noslack=info2)
+    return prog, info, st
+
+
+def run_config(ck, pid, kind, floor_obl, floor_fn, config):
+    mods, info = frontend.load_modules(config=config)
     prog = Program(mods)
+    sfx = "" if config == "default" else ":" + config
+    note = "" if config == "default" else " [no-slack configuration]"
     worker.roles = capcheck.all_roles(prog)
     reach = [(re.compile(rx), why) for rx, why in json.load(open(os.path.join(VERIF, "tables", "cap_reach.json")))["reach"]]
     keys = [(f.mod["tu"], f.name) for f in prog.allfuncs]
@@ -49,11 +61,11 @@ def run(ck, pid, kind, floor_obl, floor_fn):
                 reach_fns.setdefault(base, why)
                 continue
             what = x["what"].replace(" ", "-")
-            key = "%s:%s:%s:%s:%s#%d" % (pid, base, "write" if kind == "W" else "read", what, x["role"], x["ordinal"])
+            key = "%s:%s:%s:%s:%s#%d%s" % (pid, base, "write" if kind == "W" else "read", what, x["role"], x["ordinal"], sfx)
             bound = "not provably >= 0" if not x["lo"] else ""
             bound += (" and " if bound and not x["hi"] else "") + ("off + size <= capacity not entailed" if not x["hi"] else "")
             ck.report(key, "B-%s-in-bounds" % ("write" if kind == "W" else "read"), "%s:%s" % (res[k]["file"], x["line"]),
-                      "%s: %s through %s at offset %s, size %s, declared capacity %s: %s" % (base, x["what"], x["role"], x["off"], x["size"], x["cap"], bound),
+                      "%s: %s through %s at offset %s, size %s, declared capacity %s: %s%s" % (base, x["what"], x["role"], x["off"], x["size"], x["cap"], bound, note),
                       dict(obligation=x))
         per[base] = dict(obligations=len(r), discharged=sum(1 for x in r if x["lo"] and x["hi"]))
         if ok_all:
